@@ -25,3 +25,5 @@ func simOrderAnalysisResults(results []index.Document) {}
 // simUpdateSizeLOCKED is never called in normal builds (simhook.Enabled is a
 // false constant there).
 func (c *cachedDocs) simUpdateSizeLOCKED() {}
+
+func simSortedFields(fields []string) []string { return fields }
